@@ -7,7 +7,7 @@ def draws(s):
     return [s.next_float().hex(), s.next_int(0, 10 ** 6), s.next_float().hex()]
 
 
-def apply(cfg, order, history=False, reuse=False, late=False):
+def apply(cfg, order, history=False, reuse=False, late=False, via_info=False):
     from pydsol.core.streams import MersenneTwister, SimpleStreamUpdater, StreamSeedUpdater
     streams = {}
     for name in order:
@@ -23,6 +23,21 @@ def apply(cfg, order, history=False, reuse=False, late=False):
         streams[name] = s
     if cfg["updater"] == "simple":
         up = SimpleStreamUpdater()
+    elif via_info:
+        # the documented route: seed lists registered with a StreamSeedInformation, its table handed to the updater;
+        # another StreamSeedInformation of the same process holds other lists for the same stream names
+        from pydsol.core.streams import StreamSeedInformation
+        decoy = StreamSeedInformation()
+        for name in order:
+            decoy.add_stream(name, MersenneTwister(1))
+            decoy.add_seed_values(name, [901, 902])
+        info = StreamSeedInformation()
+        for name in order:
+            info.add_stream(name, streams[name])
+        for k, v in cfg["table"].items():
+            if k in streams:
+                info.add_seed_values(k, list(v))
+        up = StreamSeedUpdater(info.get_seeds())
     elif late:
         # the seed table is completed after the updater was built, through the live table the updater hands out:
         # at update time the configured seed lists are the same as in the base variant
@@ -68,6 +83,7 @@ def main():
         for n in names:
             r["alone"][n] = apply(dict(cfg, streams={n: cfg["streams"][n]}), [n]).get(n)
         r["late"] = apply(cfg, names, late=True) if cfg["updater"] == "table" else r["base"]
+        r["info"] = apply(cfg, names, via_info=True) if cfg["updater"] == "table" else r["base"]
         if cfg["updater"] == "table":
             # what the fallback alone would do for every stream (oracle for unlisted streams)
             r["fallback"] = apply(dict(cfg, updater="simple"), names)
